@@ -3,6 +3,7 @@ package main
 import (
 	"fmt"
 	"sort"
+	"strings"
 	"time"
 
 	"github.com/anishathalye/porcupine"
@@ -20,7 +21,7 @@ type ConcScenario struct {
 	Hasher   string `json:"hasher,omitempty"`
 	HashMode string `json:"hash_mode"` // det | collide | native
 	CollideN int    `json:"collide_n,omitempty"`
-	MinLen   int    `json:"min_len"` // min table length knob (32 = shipped)
+	MinLen   int    `json:"min_len"`                 // min table length knob (32 = shipped)
 	MinCap   int    `json:"min_cap_floor,omitempty"` // MinCapacity floor knob of the cache constructors (0 or 96 = shipped)
 	Presize  int    `json:"presize"`
 	UsePre   bool   `json:"use_presized"`
@@ -55,7 +56,7 @@ type Phase struct {
 	Tasks   [][]Op    `json:"tasks"`
 	Stall   *StallCfg `json:"stall,omitempty"`
 	// Optional marks tasks that may legitimately block behind a stalled victim.
-	Optional []int `json:"optional,omitempty"`
+	Optional []int      `json:"optional,omitempty"`
 	Delays   []DelayCfg `json:"delays,omitempty"`
 }
 
@@ -514,6 +515,9 @@ func RunConc(sc *ConcScenario, want Want) *ConcResult {
 		if want.Racers {
 			res.checkRacers(phaseRecs, st0, slots, pi, newState)
 		}
+		if want.Size {
+			res.checkClearSurvivors(phaseRecs, state, newState, pi)
+		}
 		cleared := false
 		for _, r := range phaseRecs {
 			if r.Op.K == MClear || r.Op.K == CClear {
@@ -674,6 +678,24 @@ func (res *ConcResult) collect(sim *simrt.Sim, w *World) {
 	res.Recs = w.recs
 	res.Reports = w.reports
 	res.Diverged = sim.Diverged
+	func() {
+		if res.Outcome != simrt.OutDeadlock && res.Outcome != simrt.OutLivelock {
+			return
+		}
+		// "the visitor may insert, update or delete entries of the same
+		// container" (C07): a call issued by a visitor that never returns
+		for _, n := range w.recs {
+			if !n.Pending || !n.Nested {
+				continue
+			}
+			for _, o := range w.recs {
+				if o.Pending && !o.Nested && o.Task == n.Task && o.Call < n.Call && (o.Op.K == MRange || o.Op.K == CRange || o.Op.K == CItems) {
+					res.add("range-visitor-stuck", -1, "a call made by a traversal's visitor never returned: %s inside %s (%s)", n, o, firstLineOf(sim.Explain))
+					return
+				}
+			}
+		}
+	}()
 	res.probe("cas_fail", int(sim.CASFail))
 	res.probe("mutex_block", int(sim.MutexBlocks))
 	res.probe("cond_wait", int(sim.CondWaits))
@@ -1439,6 +1461,75 @@ func (res *ConcResult) checkSweepComplete(w *World) {
 				res.add("size-sweep-incomplete", -1, "DeleteExpired %s returned although (k%d,v%d), stored by %s and expired since %d, was still there (it was evicted only later, at seq %d)", d, rp.K, rp.V, s.rec, s.eHi, rp.Seq)
 				return
 			}
+		}
+	}
+}
+
+func firstLineOf(s string) string {
+	if i := strings.IndexByte(s, ';'); i > 0 {
+		return s[:i]
+	}
+	return s
+}
+
+// checkClearSurvivors (C08: "Count is 0 right after Clear"; nothing stored
+// before a Clear began is counted or found after it returned): a value found by
+// the read-out whose storing call had returned before a completed Clear was
+// invoked survived that Clear. Values are attributed by their unique ids; the
+// zero value and ids stored twice are skipped.
+func (res *ConcResult) checkClearSurvivors(recs []*Rec, before, after map[int]keyState, phase int) {
+	var clears []*Rec
+	for _, r := range recs {
+		if (r.Op.K == MClear || r.Op.K == CClear) && !r.Pending {
+			clears = append(clears, r)
+		}
+	}
+	if len(clears) == 0 {
+		return
+	}
+	storedBy := map[int64]*Rec{}
+	dup := map[int64]bool{}
+	for _, r := range recs {
+		var v int64
+		switch r.Op.K {
+		case MStore, MLoadAndStore, CSet, CSetDefault, CSetForever, CGetAndSet:
+			v = r.Op.Val
+		case MLoadOrStore, MLoadOrCompute, CGetOrSet, CGetOrCompute:
+			if r.Pending || r.Ok {
+				continue
+			}
+			v = r.Op.Val
+		default:
+			continue
+		}
+		if v == 0 {
+			continue
+		}
+		if _, ok := storedBy[v]; ok {
+			dup[v] = true
+		}
+		storedBy[v] = r
+	}
+	for k, ks := range after {
+		if ks.v == 0 || dup[ks.v] {
+			continue
+		}
+		if r, ok := storedBy[ks.v]; ok {
+			if r.Pending || r.Op.Key != k {
+				continue
+			}
+			for _, c := range clears {
+				if r.Ret < c.Call {
+					res.add("size-clear-survivor", phase, "(k%d,v%d), stored by %s, is still there after %s returned", k, ks.v, r, c)
+					return
+				}
+			}
+			continue
+		}
+		// not stored in this phase: it was there before the phase began
+		if b, ok := before[k]; ok && b.v == ks.v {
+			res.add("size-clear-survivor", phase, "(k%d,v%d) was stored before the phase and is still there after %s returned", k, ks.v, clears[0])
+			return
 		}
 	}
 }
